@@ -131,6 +131,52 @@ def _scalar_view(an, st, o):
   return k, ty, None
 
 
+def _array_len(an, st, o):
+  """N if the operand is (a reference to) a local of type [T; N]"""
+  k, ty = _referent(an, st, o)
+  if k is None:
+    return None
+  t = None
+  if all(e == '*' for e in k[1]):
+    t = an.body.local_ty(k[0])
+    for _ in k[1]:
+      t = t[1:].lstrip() if t.startswith('&') else ''
+      if t.startswith('mut '):
+        t = t[4:]
+  m = re.match(r'\[.+; (\d+)\]$', t or '')
+  return int(m.group(1)) if m else None
+
+
+def _range_index_ok(an, st, call):
+  """Index<Range*> on a fixed-size array: in range iff the bounds are provably within 0..=N"""
+  if len(call.args) != 2:
+    return False
+  n = _array_len(an, st, call.args[0])
+  if n is None:
+    return False
+  rty = an.op_ty(call.args[1]) or ''
+  k = an.key_of_operand(st, call.args[1])
+  if k is None:
+    return False
+
+  def fld(i):
+    v = st.m.get((k[0], k[1] + (str(i),)))
+    return v if is_int(v) else None
+
+  if rty.startswith('std::ops::RangeTo<') or rty.startswith('std::ops::RangeFrom<'):
+    v = fld(0)
+    return v is not None and 0 <= v[1] and v[2] <= n
+  if rty.startswith('std::ops::Range<'):
+    a, b = fld(0), fld(1)
+    return a is not None and b is not None and 0 <= a[1] and a[2] <= b[1] and b[2] <= n
+  if rty.startswith('std::ops::RangeFull'):
+    return True
+  if rty == 'usize':
+    v = an.read(st, call.args[1])
+    return is_int(v) and 0 <= v[1] and v[2] < n
+  return False
+
+
 def _closure_body(an, o):
   """body of the closure whose value an operand holds (single definition, closure aggregate)"""
   from .facts import single_def, op_local
@@ -285,6 +331,9 @@ def int_method(an, st, call, bb, ty, m):
     return {'sub': {(): iv(0, bits)}, 'pure': True}
   if m in ('is_multiple_of', 'is_power_of_two'):
     return {'sub': {(): iv(0, 1)}, 'pure': True}
+  if m == 'to_le_bytes' and is_int(a) and a[1] >= 0:
+    # byte 0 is the low byte
+    return {'sub': {('[0]',): (a if a[2] <= 255 else iv(0, 255))}, 'pure': True}
   if m in ('to_le_bytes', 'to_be_bytes', 'to_ne_bytes', 'from_le_bytes', 'from_be_bytes', 'from_ne_bytes', 'swap_bytes', 'reverse_bits', 'rotate_left', 'rotate_right', 'to_le', 'to_be', 'from_str_radix'):
     return {'sub': {}, 'pure': True}
   if m in ('trailing_zeros',):
@@ -339,6 +388,8 @@ def apply(an, st, call, bb):
   dk = deny_kind(name) or deny_kind(tname)
   if dk:
     okf = False
+    if dk == 'index-call' and _range_index_ok(an, st, call):
+      okf = True
     if dk == 'unwrap' and call.args:
       k, _ = _referent(an, st, call.args[0])
       if k is not None and st.m.get((k[0], k[1] + ('always',))) == iv(1, 1):
@@ -475,6 +526,11 @@ def apply(an, st, call, bb):
           return {'sub': {('always',): iv(1, 1)}, 'pure': True}
     return {'sub': {}, 'pure': True}
 
+  # ---- lengths of fixed-size arrays (possibly behind an unsizing coercion) and range-indexing into them
+  if call.args and (last == 'len' or dk == 'index-call'):
+    n = _array_len(an, st, call.args[0])
+    if n is not None and last == 'len':
+      return {'sub': {(): iv(n, n)}, 'pure': True}
   # ---- lengths
   if re.search(r'(slice::<impl \[T\]>|vec::Vec|str::<impl str>|string::String|VecDeque|collections::\w+::\w+)::len$', name) or re.search(r'ExactSizeIterator(>|)::len$', name):
     return {'sub': {(): iv(0, ISIZE_MAX)}, 'pure': True}
